@@ -30,11 +30,13 @@ const (
 )
 
 var (
-	stateIdle      = protocol.NewState(1, "Idle")
-	stateAcquiring = protocol.NewState(2, "Acquiring")
-	stateAcquired  = protocol.NewState(3, "Acquired")
-	stateBusy      = protocol.NewState(4, "Busy")
-	stateDone      = protocol.NewState(5, "Done")
+	stateIdle         = protocol.NewState(1, "Idle")
+	stateAcquiring    = protocol.NewState(2, "Acquiring")
+	stateAcquired     = protocol.NewState(3, "Acquired")
+	stateBusyHasTx    = protocol.NewState(4, "BusyHasTx")
+	stateBusyNextTx   = protocol.NewState(6, "BusyNextTx")
+	stateBusyGetSizes = protocol.NewState(7, "BusyGetSizes")
+	stateDone         = protocol.NewState(5, "Done")
 )
 
 // LocalTxMonitor protocol state machine
@@ -74,29 +76,39 @@ var StateMap = protocol.StateMap{
 			},
 			{
 				MsgType:  MessageTypeHasTx,
-				NewState: stateBusy,
+				NewState: stateBusyHasTx,
 			},
 			{
 				MsgType:  MessageTypeNextTx,
-				NewState: stateBusy,
+				NewState: stateBusyNextTx,
 			},
 			{
 				MsgType:  MessageTypeGetSizes,
-				NewState: stateBusy,
+				NewState: stateBusyGetSizes,
 			},
 		},
 	},
-	stateBusy: protocol.StateMapEntry{
+	stateBusyHasTx: protocol.StateMapEntry{
 		Agency: protocol.AgencyServer,
 		Transitions: []protocol.StateTransition{
 			{
 				MsgType:  MessageTypeReplyHasTx,
 				NewState: stateAcquired,
 			},
+		},
+	},
+	stateBusyNextTx: protocol.StateMapEntry{
+		Agency: protocol.AgencyServer,
+		Transitions: []protocol.StateTransition{
 			{
 				MsgType:  MessageTypeReplyNextTx,
 				NewState: stateAcquired,
 			},
+		},
+	},
+	stateBusyGetSizes: protocol.StateMapEntry{
+		Agency: protocol.AgencyServer,
+		Transitions: []protocol.StateTransition{
 			{
 				MsgType:  MessageTypeReplyGetSizes,
 				NewState: stateAcquired,
